@@ -154,16 +154,28 @@ def build_tree(R, wd, mb, bk, depth):
         if v:
             out.append(('violation', v, ops, hist))
 
-    def term(prefix, gen_n):
+    def term(prefix, gen_n, limit):
         kids = []
-        if len(prefix) < depth:
+        if len(prefix) < limit:
             for s in sizes:
                 p = prefix + (s,)
                 if p in nodes:
                     msg = [((gen_n + i) % 250) + 1 for i in range(s)]
-                    kids.append('(W %s,%s)' % (zl(msg), term(p, gen_n + s)))
+                    kids.append('(W %s,%s)' % (zl(msg), term(p, gen_n + s, limit)))
         return 'N(%s)[%s]' % (snap_term(nodes[prefix]), ';'.join(kids))
-    out.append(('tree', term((), 0), len(nodes)))
+
+    # one case for the top of the tree, one per subtree below every prefix of length `cut`
+    cut = 2 if depth >= 4 else 0
+    if cut:
+        out.append(('tree', '[]', term((), 0, cut), 0))
+        for pre in itertools.product(sizes, repeat=cut):
+            if pre in nodes:
+                gen = R.Bytes()
+                msgs = [list(gen.take(s)) for s in pre]
+                out.append(('tree', '[' + ';'.join(zl(m) for m in msgs) + ']', term(pre, sum(pre), depth), 0))
+        out[-1] = out[-1][:3] + (len(nodes),)
+    else:
+        out.append(('tree', '[]', term((), 0, depth), len(nodes)))
     return out
 
 
@@ -322,12 +334,18 @@ def _j(x):
 
 def _run(chk, wd, proved):
     vlib.ensure_impl_path()
+    _orig_violation = chk.violation
+
+    def _capped(obj, nofail=False, name=None):      # a broken tree can fail on every case: keep the first 30 replays
+        if len(chk.violations) < 30:
+            return _orig_violation(obj, nofail=nofail, name=name)
+    chk.violation = _capped
     import c19_real as R
     cov = chk.coverage
     distinct = set()
     total_nodes = 0
     # ---- 1. exhaustive prefix trees
-    depth_for = (lambda mb: 5 if mb <= 4 else 4) if chk.tier == 'quick' else (lambda mb: 6 if mb <= 4 else 5)
+    depth_for = (lambda mb: 5 if mb <= 3 else 4) if chk.tier == 'quick' else (lambda mb: 6 if mb <= 4 else 5)
     tcases, tmeta = [], []
     jobs = []
     for mb in range(0, 7):
@@ -345,16 +363,17 @@ def _run(chk, wd, proved):
                 chk.violation(_j({'kind': 'C19 fails on the implementation', 'what': item[1], 'maxbytes': mb,
                                   'backups': bk, 'ops': item[2], 'observed': item[3]}))
             else:
-                tcases.append('(%d,%d,%s)' % (mb, bk, item[1]))
-                tmeta.append((mb, bk, depth, item[2]))
-                total_nodes += item[2]
-                chk.dist('tree:mb=%d' % mb, item[2])
-    bad, errs = vlib.coq_compare(IMPORTS, 'Z * Z * tree', 'check_tree', tcases, wd, tag='tree', shard=1, preamble=PRE)
+                tcases.append('(%d,%d,%s,%s)' % (mb, bk, item[1], item[2]))
+                tmeta.append((mb, bk, depth, item[3]))
+                total_nodes += item[3]
+                chk.dist('tree:mb=%d' % mb, item[3])
+    chk.note('t_trees_built=%.1f' % (__import__('time').time() - chk.t0))
+    bad, errs = vlib.coq_compare(IMPORTS, 'Z * Z * list bytes * tree', 'check_tree', tcases, wd, tag='tree', shard=3, preamble=PRE)
     for e in errs:
         chk.violation({'kind': 'model evaluation failed', 'part': 'tree', 'error': e}, nofail=True)
-    for i in bad[:3]:
-        mb, bk, depth, _ = tmeta[i]
+    for (mb, bk, depth) in sorted(set(tmeta[i][:3] for i in bad))[:3]:
         narrow_tree(chk, R, wd, mb, bk, depth)
+    chk.note('t_trees_compared=%.1f' % (__import__('time').time() - chk.t0))
     # ---- 2. random single-handler histories with clear/reopen/external operations
     rng = chk.rng
     hcases, hmeta = [], []
@@ -387,6 +406,7 @@ def _run(chk, wd, proved):
                           'explanation': 'the Coq model of the handlers (about which the C19 theorems are proved) leaves '
                                          'different files than the real handlers; the observed files satisfy the C19 monitor'}),
                       nofail=True)
+    chk.note('t_random_done=%.1f' % (__import__('time').time() - chk.t0))
     # ---- 3. several handlers on one path (known finding C19-shared)
     mcases, mmeta = [], []
     shared_hits = 0
@@ -432,6 +452,7 @@ def _run(chk, wd, proved):
         n, mb, bk, rops, hist = mmeta[i]
         chk.violation(_j({'kind': 'model and implementation disagree', 'part': 'several handlers on one path',
                           'handlers': n, 'maxbytes': mb, 'backups': bk, 'ops': rops, 'observed': hist}), nofail=True)
+    chk.note('t_shared_done=%.1f' % (__import__('time').time() - chk.t0))
     # ---- 4. through the real POutputDispatcher, Subprocess.removelogs/reopenlogs and clearProcessLogs
     dcases, dmeta = [], []
     d2cases, d2meta = [], []
@@ -492,6 +513,7 @@ def _run(chk, wd, proved):
         chk.violation(_j({'kind': 'model and implementation disagree', 'part': 'stdout and stderr dispatchers on one file',
                           'case': d2meta[i]}), nofail=True)
 
+    chk.note('t_dispatcher_done=%.1f' % (__import__('time').time() - chk.t0))
     if shared_hits:
         chk.known_finding('C19-shared', 'more than one rotating handler on one path (stdout and stderr, or two logs, configured '
                                         'to the same file): a backup shorter than maxbytes, a live log at or above maxbytes or '
@@ -510,7 +532,7 @@ def _run(chk, wd, proved):
                    'file\'s content); plus %d random single-handler histories with clear/reopen/external delete/replace, '
                    '%d histories of 2-3 handlers on one path, %d histories through the real POutputDispatcher / '
                    'Subprocess.reopenlogs / clearProcessLogs; distinct = distinct prefixes + distinct (op kind, file sizes) '
-                   'random histories' % ('5 (4 for maxbytes > 4)' if chk.tier == 'quick' else '6 (5 for maxbytes > 4)',
+                   'random histories' % ('5 (4 for maxbytes > 3)' if chk.tier == 'quick' else '6 (5 for maxbytes > 4)',
                                          total_nodes, len(hcases), len(mcases), len(dcases) + len(m2)))
     cov['samples'] = [_j({'maxbytes': m[0], 'backups': m[1], 'ops': m[2], 'observed': m[3]}) for m in hmeta[3:5]]
 
